@@ -40,8 +40,8 @@ ASSUMPTIONS = [
     "expressions are the single-expression fragment: no `a:b:c` ranges, arrays, named arguments, multi-output "
     "parentheses; component references are opaque atoms (dotted names / integer subscripts)",
     "string literals: the value is the text between the delimiters, escape sequences kept verbatim (pymoca documents "
-    "no unescaping); a literal ending in an escaped backslash is only used where no later `\"` follows in the file "
-    "(listed finding C03-F2)",
+    "no unescaping; a backslash always takes the next character with it, so the content never ends in an odd run "
+    "of backslashes)",
     "real literals are in double range; their exact value is the correctly rounded double of the decimal lexeme",
     "zero-argument calls `f()` / `initial()` are a separate stream (finding C03-F1, fixed in /repo by 3a63bdb; the "
     "stream stays as a regression check)",
@@ -706,8 +706,8 @@ ESCAPES = ['\\"', "\\\\", "\\n", "\\t", "\\'", "\\?", "\\a"]
 
 def gen_string(rng, tail_backslash_ok=False):
     """Content of a string literal: plain characters and escape sequences (kept verbatim by pymoca: no unescaping),
-    escapes at the start, in the middle and at the END with good probability.  A content ending in an escaped
-    backslash is only produced for the single-literal stream (see finding C03-F2)."""
+    escapes at the start, in the middle and at the END with good probability (a content ending in an escaped
+    backslash included: finding C03-F2, fixed by ee937b8)."""
     n = rng.randint(0, 6)
     pieces = []
     for _ in range(n):
@@ -716,9 +716,6 @@ def gen_string(rng, tail_backslash_ok=False):
         pieces.insert(0, rng.choice(ESCAPES))
     if rng.random() < 0.35:
         pieces.append(rng.choice(ESCAPES))
-    if not tail_backslash_ok:
-        while pieces and pieces[-1] == "\\\\":
-            pieces.pop()
     return "".join(pieces)
 
 
@@ -1493,12 +1490,12 @@ def run(ctx):
               ["bin", "-", ["call", "max", [["call", "f", []], ["ref", "x"]]], ["num", "1"]]):
         ctx.count("stream-emptycall")
         check_empty_call(ctx, drv, t)
-    # strings ending in an escaped backslash with a later quote in the text (listed finding C03-F2), kept apart
+    # strings ending in an escaped backslash with a later quote in the text (finding C03-F2, fixed by ee937b8)
     for t in (["bin", "==", ["str", "a\\\\"], ["str", "b"]],
               ["bin", "or", ["bin", "==", ["ref", "name"], ["str", "C:\\\\dir\\\\"]], ["bin", "<>", ["ref", "name"], ["str", ""]]],
               ["call", "f", [["str", "\\\\"], ["str", "x\\\""]]]):
         ctx.count("stream-strtail")
-        check_tree(ctx, drv, t, "strtail")
+        check_tree(ctx, drv, t, "tree")
     # systematic operator pairs, minimal parentheses and fully parenthesised
     for t in pair_trees():
         ctx.count("stream-pairs")
